@@ -14,6 +14,7 @@ import Driver.CC
 import Driver.RX
 import Driver.E2E
 import Driver.MD
+import Driver.FX
 /-!
 Line-protocol driver: one operation per input line, one observation per output line:
 `<model observation>\t<spec observation>`.  First token selects the component.
@@ -37,6 +38,7 @@ structure All where
   rx : RX.St := {}
   e2e : E2E.St := {}
   md : MD.St := {}
+  fx : FX.St := {}
 
 def stepAll (s : All) (line : String) : All × String :=
   match (line.trimAscii.toString.splitOn " ").filter (· ≠ "") with
@@ -85,6 +87,9 @@ def stepAll (s : All) (line : String) : All × String :=
   | "rx" :: args =>
       let (c, a, b) := RX.step s.rx args
       ({ s with rx := c }, a ++ "\t" ++ b)
+  | "fx" :: args =>
+      let (c, a, b) := FX.step s.fx args
+      ({ s with fx := c }, a ++ "\t" ++ b)
   | "md" :: args =>
       let (c, a, b) := MD.step s.md args
       ({ s with md := c }, a ++ "\t" ++ b)
